@@ -18,6 +18,7 @@ mod rand;
 mod geometry;
 mod f80;
 mod fft;
+mod show;
 
 use util::arg_value;
 
@@ -64,6 +65,7 @@ fn main() {
         ("fft", "record-complex") => fft::record_complex(&tier, &out),
         ("mint", "record") => mint::record(seed, &tier, &out),
         ("writer", "replay") => writer::replay(&args[3], &out),
+        ("show", "record") => show::record(seed, &tier, &out),
         ("writer", "record") => writer::record(seed, &tier, &out),
         _ => {
             eprintln!("unknown component/mode {} {}", comp, mode);
